@@ -77,6 +77,7 @@ class WalkOpts(object):
         self.hinted = False
         self.retarget = False
         self.pk_rename = False
+        self.only_apps = None        # restrict the walk to these app labels
         for k, v in kw.items():
             assert hasattr(self, k), k
             setattr(self, k, v)
@@ -178,6 +179,8 @@ def _candidates(spec, opts, feats):
     """Enabled (kind, app, model) actions in the current spec."""
     cands = []
     for app, name, m in S.iter_models(spec):
+        if opts.only_apps is not None and app not in opts.only_apps:
+            continue
         refs = S.all_meta_refs(m)
         ut_refs = S.meta_field_refs(m)['unique_together']
         other_refs = refs - ut_refs | (S.meta_field_refs(m)['index_together'] |
@@ -208,17 +211,23 @@ def _candidates(spec, opts, feats):
                 cands.append(('RenameModel', app, name, None))
         if 'DeleteModel' in opts.kinds:
             incoming = [r for r in S.relations_to(spec, app, name) if (r[0], r[1]) != (app, name)]
+            if 'last_model' in opts.avoid and len(spec['apps'][app]['models']) <= 1:
+                incoming = ['last model of the app']
             if not incoming and not ('multi_delete_hinted' in opts.avoid and
                                      spec.get('_deleted_models', 0) >= 1):
                 cands.append(('DeleteModel', app, name, None))
     if 'RenameAppLabel' in opts.kinds:
         free = [l for l in S.APP_LABELS if l not in spec['apps']]
         for app in sorted(spec['apps']):
+            if opts.only_apps is not None and app not in opts.only_apps:
+                continue
             if free and spec['apps'][app]['models']:
                 cands.append(('RenameAppLabel', app, None, None))
     if 'DeleteApplication' in opts.kinds:
         for app in sorted(spec['apps']):
             if not spec['apps'][app]['models']:
+                continue
+            if opts.only_apps is not None and app not in opts.only_apps:
                 continue
             ok = True
             for n in spec['apps'][app]['models']:
@@ -394,7 +403,7 @@ def draw_mutation(draw, spec, cand, feats, opts, counter):
         old_table = S.table_of(app, m)
         choice = draw(st.integers(0, 2))
         tables = S.all_tables(spec)
-        if choice == 0:
+        if choice == 0 or 'rename_model_new_table' in opts.avoid:
             table = old_table
         elif choice == 1:
             table = S.default_table(app, new)
